@@ -75,7 +75,7 @@ def gen_case(rnd, spec):
             p = {"id": new(), "flavour": fl, "program": worker_program(rnd, adoptees=kids), "cleanup": {"kind": "none"}}
             if not how.startswith("service"):
                 # not necessarily a coroutine function: also plain callables that run a synchronous first section themselves
-                p["callable"] = rnd.choice(["function", "function", "prefixed", "prefixed", "lambda", "wrapped", "partial", "object", "method"])
+                p["callable"] = rnd.choice(["function", "function", "prefixed", "prefixed", "marked", "lambda", "wrapped", "partial", "object", "method"])
             if how == "queued":
                 p["when"] = "queued"
                 gen["payloads"].append(p)
@@ -322,6 +322,7 @@ def judge(case, run, result):
             result.count("blocking_windows_not_judged_beside_a_computing_thread")
             continue
         ticks = [e for e in run.of("tick", gen=0) if s["seq"] < e["seq"] < end[0]["seq"]]
+        samples = [e for e in ticks if e.get("waited")]
         if len(ticks) < 15:
             # even a plain thread sleeping 10 ms at a time hardly ran in these 0.6 s: the machine is starved,
             # nothing can be said about this window
@@ -332,11 +333,25 @@ def judge(case, run, result):
             return max(b - a for a, b in zip(marks, marks[1:]))
 
         reference = longest_pause(ticks)
+
+        def cpu_wait(fl):
+            """Seconds the flavour's loop thread waited for a CPU during the window (None-safe; 0 if unknown)."""
+            tid = str(run.first("start", gen=0, pid="heart_" + fl).get("tid"))
+            values = [e["waited"].get(tid) for e in samples if e["waited"].get(tid) is not None]
+            return values[-1] - values[0] if len(values) >= 2 else 0.0
+
         for fl in common.COROUTINE:
             beats = [e for e in run.of("beat", gen=0, pid="heart_" + fl) if s["seq"] < e["seq"] < end[0]["seq"]]
             if len(beats) < 2:
                 problems.append(("while thread payload %s blocked for %.2f s the %s heartbeat advanced only %d time(s)"
                                  % (s["pid"], end[0]["t"] - s["t"], fl, len(beats)), None))
+            elif longest_pause(beats) > 0.35 and reference < 0.1 and cpu_wait(fl) > 0.1:
+                # the loop's thread was runnable but got no CPU for that long (scheduler statistics): a contended machine
+                result.count("pauses_explained_by_cpu_contention")
+            elif longest_pause(beats) > 0.35 and reference < 0.1 and "crowd" in gen.get("tags", []):
+                # coroutine payloads start threads here (adopt of a thread payload returns when the new thread runs): on a loaded
+                # machine with 130 threads that takes its time - start-up cost, not blocking
+                result.count("pauses_not_judged_while_a_crowd_of_threads_starts")
             elif longest_pause(beats) > 0.35 and reference < 0.1:
                 # the loop stood still for most of the blocking time although a plain thread ticking every 10 ms never paused
                 # for 0.1 s: not a starved machine, the loop was held up
